@@ -385,6 +385,15 @@ func init() {
 		}
 		return m.ctx.BV(uint64(n), 64)
 	})
+	reg("PooledAccesses", func(m *Machine, fn *ssa.Function, a []Value) Value {
+		n := m.pooledAccess
+		for _, w := range m.writes {
+			if w.cell.Col == "$pooled" {
+				n++
+			}
+		}
+		return m.ctx.BV(uint64(n), 64)
+	})
 	reg("Touch", func(m *Machine, fn *ssa.Function, a []Value) Value {
 		// a model's way of saying "this method writes its receiver": one
 		// same-value write to the first leaf cell of the pointed-to object
